@@ -135,6 +135,13 @@ func init() {
 						if fv.Name() == "Parser" { // the embedded parser of a profile is not an option
 							continue
 						}
+						// a plan made from the options when the object is built (a slice of step functions) is not an option:
+						// what it holds is read through the options it was made from (planSteps)
+						if sl, ok := fv.Type().Underlying().(*types.Slice); ok {
+							if _, isFn := sl.Elem().Underlying().(*types.Signature); isFn {
+								continue
+							}
+						}
 						if nm, ok := fv.Type().(*types.Named); ok && depth < 2 && nm.Obj().Pkg() != nil && strings.HasPrefix(nm.Obj().Pkg().Path(), core.ModPath) {
 							if sub, ok := nm.Underlying().(*types.Struct); ok && nm.Obj().Name() != "PercentEncodeSet" {
 								leaves(sub, depth+1)
